@@ -58,9 +58,11 @@ Section Proofs.
 
   Notation fly_iteration := (fly_iteration iter_once).
   Notation iterate := (iterate iter_once small adjust).
-  Notation body := (body calc iter_once small adjust).
-  Notation fly := (fly ctor calc iter_once small adjust).
-  Notation run := (run ctor calc iter_once small adjust).
+  Variable gfix : bool.
+  Notation prepare := (prepare calc gfix).
+  Notation body := (body calc iter_once small adjust gfix).
+  Notation fly := (fun g => fly ctor calc iter_once small adjust g gfix).
+  Notation run := (fun g => run ctor calc iter_once small adjust g gfix).
 
   (* ---- the state relation: same options, same context, nothing readable left on either builder ---- *)
   Definition clean (b : builder) : Prop := forall a, In a reads -> lookup a (b_own b) = None.
@@ -206,29 +208,41 @@ Section Proofs.
     - simpl. auto.
   Qed.
 
+  Lemma sim_prepare : forall b1 b2, sim b1 b2 -> armed b1 -> sim (prepare b1) (prepare b2) /\ armed (prepare b1).
+  Proof.
+    intros b1 b2 H Ha. unfold C17_Model.prepare.
+    rewrite <- (sim_getattr b1 b2 "starting_mass" H starting_mass_read).
+    assert (Ho : b_opts b1 = b_opts b2) by (destruct H; auto).
+    destruct (getattr b1 "starting_mass") as [[v|]|]; auto.
+    - destruct gfix; auto.
+      rewrite <- Ho. rewrite <- (calc_reads (b_opts b1) (view b1) (view b2) (sim_view _ _ H)).
+      destruct (calc (b_opts b1) (view b1)) as [sm tf]. split.
+      + apply sim_setattr; auto. left. apply armed_left; auto.
+      + apply armed_setattr; auto.
+    - rewrite <- Ho. rewrite <- (calc_reads (b_opts b1) (view b1) (view b2) (sim_view _ _ H)).
+      destruct (calc (b_opts b1) (view b1)) as [sm tf]. split.
+      + apply sim_setattr.
+        * apply sim_setattr; auto. left. apply armed_left; auto.
+        * left. apply armed_left; [apply armed_setattr; auto|auto].
+      + repeat apply armed_setattr; auto.
+  Qed.
+
+  Lemma prepare_opts_armed : forall b, armed b -> b_opts (prepare b) = b_opts b /\ armed (prepare b).
+  Proof.
+    intros b Ha. unfold C17_Model.prepare. destruct (getattr b "starting_mass") as [[v|]|]; auto.
+    - destruct gfix; auto. destruct (calc (b_opts b) (view b)) as [sm tf]. rewrite setattr_opts. split; auto.
+      apply armed_setattr; auto.
+    - destruct (calc (b_opts b) (view b)) as [sm tf]. rewrite !setattr_opts. split; auto.
+      repeat apply armed_setattr; auto.
+  Qed.
+
   Lemma sim_body : forall b1 b2, sim b1 b2 -> armed b1 ->
     sim (fst (body b1)) (fst (body b2)) /\ snd (body b1) = snd (body b2).
   Proof.
     intros b1 b2 H Ha. unfold C17_Model.body.
-    rewrite <- (sim_getattr b1 b2 "starting_mass" H starting_mass_read).
-    assert (Ho : b_opts b1 = b_opts b2) by (destruct H; auto).
-    set (d1 := match getattr b1 "starting_mass" with
-               | Some None => let '(sm, tf) := calc (b_opts b1) (view b1) in
-                              setattr (setattr b1 "total_fuel_mass" (Some tf)) "starting_mass" (Some sm)
-               | _ => b1 end).
-    set (d2 := match getattr b1 "starting_mass" with
-               | Some None => let '(sm, tf) := calc (b_opts b2) (view b2) in
-                              setattr (setattr b2 "total_fuel_mass" (Some tf)) "starting_mass" (Some sm)
-               | _ => b2 end).
-    assert (Hd : sim d1 d2 /\ armed d1).
-    { unfold d1, d2. destruct (getattr b1 "starting_mass") as [[v|]|]; auto.
-      rewrite <- Ho. rewrite <- (calc_reads (b_opts b1) (view b1) (view b2) (sim_view _ _ H)).
-      destruct (calc (b_opts b1) (view b1)) as [sm tf]. split.
-      - apply sim_setattr.
-        + apply sim_setattr; auto. left. apply armed_left; auto.
-        + left. apply armed_left; [apply armed_setattr; auto|auto].
-      - repeat apply armed_setattr; auto. }
-    destruct Hd as (Hd & Had).
+    destruct (sim_prepare b1 b2 H Ha) as (Hd & Had).
+    set (d1 := prepare b1) in *. set (d2 := prepare b2) in *.
+    assert (Hdd : sim d1 d2 /\ armed d1) by auto.
     assert (Hod : b_opts d1 = b_opts d2) by (destruct Hd; auto).
     rewrite <- Hod. destruct (o_optimize (b_opts d1)); simpl; [split; auto|].
     destruct (sim_fly_iteration d1 d2 Hd Had) as (S1 & S2 & S3).
@@ -289,14 +303,8 @@ Section Proofs.
       { unfold armed, has_ctx_attr, e, c'; simpl. rewrite !has_update. simpl. split; auto. }
       assert (Hb : b_opts (fst (body e)) = b_opts b).
       { unfold C17_Model.body.
-        set (d := match getattr e "starting_mass" with
-                  | Some None => let '(sm, tf) := calc (b_opts e) (view e) in
-                                 setattr (setattr e "total_fuel_mass" (Some tf)) "starting_mass" (Some sm)
-                  | _ => e end).
-        assert (Hd : b_opts d = b_opts b /\ armed d).
-        { unfold d. destruct (getattr e "starting_mass") as [[v|]|]; auto.
-          destruct (calc (b_opts e) (view e)) as [sm tf]. rewrite !setattr_opts. split; auto.
-          repeat apply armed_setattr; auto. }
+        set (d := prepare e).
+        assert (Hd : b_opts d = b_opts b /\ armed d) by (apply (prepare_opts_armed e Ha)).
         destruct Hd as (Hd & Had). destruct (o_optimize (b_opts d)); simpl; auto.
         destruct (fly_iteration_opts_armed d Had) as (Hx & Hax). rewrite Hd in Hx.
         destruct (fly_iteration d) as [x [[t r]|e0]]; simpl in Hx, Hax |- *; auto.
@@ -354,6 +362,32 @@ Section Proofs.
       pose proof (idle_fly o b m H) as H1. destruct (flyg b m) as [b1 out]. simpl in *.
       specialize (IH b1 H1). destruct (rung b1 ms) as [b2 outs]. simpl in *. rewrite Hs, IH. reflexivity.
     Qed.
+
+    (* histories that also replace the builder's options between flights *)
+    Notation runo := (run_ops ctor calc iter_once small adjust guarded gfix).
+
+    Lemma idle_set_options : forall o o' b, idle o b -> idle o' (set_options b o').
+    Proof. intros o o' b (O & N & C). unfold idle, set_options, clean in *; simpl; auto. Qed.
+
+    Lemma idle_run_ops : forall ops o b, idle o b -> idle (b_opts (fst (runo b ops))) (fst (runo b ops)).
+    Proof.
+      induction ops as [|[m|o'] ops IH]; intros o b H; simpl.
+      - destruct H as (O & N & C). unfold idle. auto.
+      - pose proof (idle_fly o b m H) as H1. destruct (flyg b m) as [b1 out]. simpl in H1.
+        specialize (IH o b1 H1). destruct (runo b1 ops) as [b2 outs]. simpl in *. exact IH.
+      - apply (IH o'). eapply idle_set_options; eauto.
+    Qed.
+
+    Theorem ops_history_independent : forall o0 ops m,
+      let b := fst (runo (fresh o0) ops) in
+      snd (flyg b m) = snd (flyg (fresh (b_opts b)) m) /\ idle (b_opts b) (fst (flyg b m)).
+    Proof.
+      intros o0 ops m b. pose proof (idle_run_ops ops o0 (fresh o0) (idle_fresh o0)) as Hb. fold b in Hb.
+      split.
+      - destruct (sim_fly b (fresh (b_opts b)) m (idle_sim _ _ _ Hb (idle_fresh _))) as (_ & H); auto.
+        destruct Hb as (_ & N & _). exact N.
+      - apply idle_fly; auto.
+    Qed.
   End WithGuard.
 
   (* ---- which error surfaces ---- *)
@@ -365,7 +399,7 @@ Section Proofs.
   Proof.
     intros b m. unfold C17_Model.fly. destruct (ctor (b_opts b) m) as [c|r].
     - set (e := mkb _ _ _). unfold C17_Model.body.
-      set (d := match getattr e "starting_mass" with Some None => _ | _ => e end).
+      set (d := prepare e).
       destruct (o_optimize (b_opts d)); simpl; [discriminate|].
       destruct (fly_iteration d) as [x [[t r]|e0]]; simpl; [|discriminate].
       destruct (o_iterate (b_opts x)); simpl; [|discriminate].
@@ -420,17 +454,17 @@ Definition w_opts : options := mkopts false false 5 0.
 
 Theorem context_ctor_error_masked_refuted :
   exists m, w_ctor w_opts m = inr 7%Z /\
-    snd (fly w_ctor w_calc w_iter w_small w_adjust false (fresh w_opts) m) <> Raised (Reason 7%Z) /\
-    snd (fly w_ctor w_calc w_iter w_small w_adjust false (fresh w_opts) m) = Raised AttrCtx /\
-    snd (fly w_ctor w_calc w_iter w_small w_adjust true (fresh w_opts) m) = Raised (Reason 7%Z).
+    snd (fly w_ctor w_calc w_iter w_small w_adjust false true (fresh w_opts) m) <> Raised (Reason 7%Z) /\
+    snd (fly w_ctor w_calc w_iter w_small w_adjust false true (fresh w_opts) m) = Raised AttrCtx /\
+    snd (fly w_ctor w_calc w_iter w_small w_adjust true true (fresh w_opts) m) = Raised (Reason 7%Z).
 Proof. exists (mkmission 0 None). repeat split; try reflexivity. discriminate. Qed.
 
 (* non-vacuity of the history theorem: a history with a failing and a succeeding flight, replayed oracles *)
 Example history_nonvacuous :
   let ss := [mkscript None [inl (10%Z, true)]; mkscript (Some 3%Z) []; mkscript None [inl (11%Z, false); inr 5%Z]] in
-  run_history true (mkopts false true 5 0) ss [0; 1; 2; 0]%Z [None; None; None; None]
+  run_history true true (repeat (mkopts false true 5 0) 4) ss [0; 1; 2; 0]%Z [None; None; None; None]
   = ([SFlown 10 1; SReason 3; SReason 5; SFlown 10 1], true, ["current_mass"]) /\
-  run_history false (mkopts false true 5 0) ss [0; 1; 2; 0]%Z [None; None; None; None]
+  run_history false true (repeat (mkopts false true 5 0) 4) ss [0; 1; 2; 0]%Z [None; None; None; None]
   = ([SFlown 10 1; SAttrCtx; SReason 5; SFlown 10 1], true, ["current_mass"]).
 Proof. split; vm_compute; reflexivity. Qed.
 
@@ -447,36 +481,51 @@ Definition reads_only (calc : options -> view_t -> Z * Z) (iter_once : options -
 
 Theorem main_fly_history_independent : forall ctor calc iter_once small adjust reads,
   reads_only calc iter_once adjust reads ->
-  forall guarded o ms m,
-    let b := fst (run ctor calc iter_once small adjust guarded (fresh o) ms) in
-    snd (fly ctor calc iter_once small adjust guarded b m) = snd (fly ctor calc iter_once small adjust guarded (fresh o) m) /\
-    idle reads o (fst (fly ctor calc iter_once small adjust guarded b m)).
-Proof. intros ctor calc iter_once small adjust reads (H1 & H2 & H3 & H4 & H5 & H6). apply fly_history_independent; auto. Qed.
+  forall guarded gfix o ms m,
+    let b := fst (run ctor calc iter_once small adjust guarded gfix (fresh o) ms) in
+    snd (fly ctor calc iter_once small adjust guarded gfix b m) = snd (fly ctor calc iter_once small adjust guarded gfix (fresh o) m) /\
+    idle reads o (fst (fly ctor calc iter_once small adjust guarded gfix b m)).
+Proof.
+  intros ctor calc iter_once small adjust reads (H1 & H2 & H3 & H4 & H5 & H6) guarded gfix o ms m.
+  eapply fly_history_independent; eauto.
+Qed.
 
 Theorem main_history_is_fresh_flights : forall ctor calc iter_once small adjust reads,
   reads_only calc iter_once adjust reads ->
-  forall guarded o ms,
-    snd (run ctor calc iter_once small adjust guarded (fresh o) ms) =
-    map (fun m => snd (fly ctor calc iter_once small adjust guarded (fresh o) m)) ms.
+  forall guarded gfix o ms,
+    snd (run ctor calc iter_once small adjust guarded gfix (fresh o) ms) =
+    map (fun m => snd (fly ctor calc iter_once small adjust guarded gfix (fresh o) m)) ms.
 Proof.
-  intros ctor calc iter_once small adjust reads (H1 & H2 & H3 & H4 & H5 & H6) guarded o ms.
-  apply (run_is_map_of_fresh_flights ctor calc iter_once small adjust reads H1 H2 H3 H4 H5 H6 guarded o ms (fresh o)).
-  apply idle_fresh.
+  intros ctor calc iter_once small adjust reads (H1 & H2 & H3 & H4 & H5 & H6) guarded gfix o ms.
+  eapply run_is_map_of_fresh_flights; eauto. apply idle_fresh.
+Qed.
+
+(* ... also when the caller replaces the options between flights *)
+Theorem main_ops_history_independent : forall ctor calc iter_once small adjust reads,
+  reads_only calc iter_once adjust reads ->
+  forall guarded gfix o0 ops m,
+    let b := fst (run_ops ctor calc iter_once small adjust guarded gfix (fresh o0) ops) in
+    snd (fly ctor calc iter_once small adjust guarded gfix b m)
+      = snd (fly ctor calc iter_once small adjust guarded gfix (fresh (b_opts b)) m) /\
+    idle reads (b_opts b) (fst (fly ctor calc iter_once small adjust guarded gfix b m)).
+Proof.
+  intros ctor calc iter_once small adjust reads (H1 & H2 & H3 & H4 & H5 & H6) guarded gfix o0 ops m.
+  eapply ops_history_independent; eauto.
 Qed.
 
 (* a failed flight leaves the builder fully usable: whatever failed before, a flight gives what a fresh builder gives *)
 Theorem main_failed_flight_leaves_builder_usable : forall ctor calc iter_once small adjust reads,
   reads_only calc iter_once adjust reads ->
-  forall guarded o bad m,
-    let b := fst (fly ctor calc iter_once small adjust guarded (fresh o) bad) in
+  forall guarded gfix o bad m,
+    let b := fst (fly ctor calc iter_once small adjust guarded gfix (fresh o) bad) in
     b_ctx b = None /\ b_opts b = o /\
-    snd (fly ctor calc iter_once small adjust guarded b m) = snd (fly ctor calc iter_once small adjust guarded (fresh o) m).
+    snd (fly ctor calc iter_once small adjust guarded gfix b m) = snd (fly ctor calc iter_once small adjust guarded gfix (fresh o) m).
 Proof.
-  intros ctor calc iter_once small adjust reads H guarded o bad m b.
-  pose proof (main_fly_history_independent ctor calc iter_once small adjust reads H guarded o [bad] m) as (A & _).
-  pose proof (main_fly_history_independent ctor calc iter_once small adjust reads H guarded o [] bad) as (_ & (B1 & B2 & _)).
+  intros ctor calc iter_once small adjust reads H guarded gfix o bad m b.
+  pose proof (main_fly_history_independent ctor calc iter_once small adjust reads H guarded gfix o [bad] m) as (A & _).
+  pose proof (main_fly_history_independent ctor calc iter_once small adjust reads H guarded gfix o [] bad) as (_ & (B1 & B2 & _)).
   simpl in *. unfold b.
-  destruct (fly ctor calc iter_once small adjust guarded (fresh o) bad) as [b1 out] eqn:E. simpl in *.
+  destruct (fly ctor calc iter_once small adjust guarded gfix (fresh o) bad) as [b1 out] eqn:E. simpl in *.
   repeat split; auto.
 Qed.
 
@@ -497,3 +546,50 @@ Qed.
 Theorem main_out_of_iterations_is_error : forall iter_once small adjust b t r,
   iterate iter_once small adjust 0 b t r = (b, inr NO_CONVERGENCE).
 Proof. reflexivity. Qed.
+
+(* ---- the finding FC17a: a starting mass handed in by the caller ---- *)
+Definition ctx_of (c : dict) (given : value) : dict :=
+  update "total_fuel_mass" None (update "starting_mass" given c).
+
+Lemma ctx_of_sm : forall c given, lookup "starting_mass" (ctx_of c given) = Some given.
+Proof.
+  intros. unfold ctx_of. rewrite lookup_update_neq by discriminate. apply lookup_update_eq.
+Qed.
+Lemma ctx_of_tf : forall c given, lookup "total_fuel_mass" (ctx_of c given) = Some None.
+Proof. intros. unfold ctx_of. apply lookup_update_eq. Qed.
+
+(* as the code stood: calc_starting_mass is skipped, the fuel load is still None when the first iteration starts
+   (its first statement, storing the fuel load in the first point, then fails with an internal TypeError) *)
+Theorem given_mass_fuel_load_undefined_before_fix : forall calc o own c m,
+  lookup "starting_mass" own = None -> lookup "total_fuel_mass" own = None ->
+  let e := mkb o own (Some (ctx_of c (Some m))) in
+  getattr (prepare calc false e) "total_fuel_mass" = Some None.
+Proof.
+  intros calc o own c m H1 H2 e. unfold prepare, getattr, e. simpl. rewrite H1, ctx_of_sm. simpl.
+  rewrite H2, ctx_of_tf. reflexivity.
+Qed.
+
+(* with the fuel load derived either way, it is defined before the first iteration, given mass or not *)
+Theorem fuel_load_defined_before_first_iteration : forall calc o own c given,
+  lookup "starting_mass" own = None -> lookup "total_fuel_mass" own = None ->
+  let e := mkb o own (Some (ctx_of c given)) in
+  getattr (prepare calc true e) "total_fuel_mass" = Some (Some (snd (calc o (view e)))) /\
+  getattr (prepare calc true e) "starting_mass" =
+    Some (Some (match given with Some m => m | None => fst (calc o (view e)) end)).
+Proof.
+  intros calc o own c given H1 H2 e.
+  assert (Hsm0 : getattr e "starting_mass" = Some given).
+  { unfold getattr, e; simpl. rewrite H1, ctx_of_sm. reflexivity. }
+  unfold prepare. rewrite Hsm0.
+  assert (Htf : has "total_fuel_mass" (ctx_of c given) = true) by (unfold has; rewrite ctx_of_tf; reflexivity).
+  destruct given as [m|]; simpl.
+  - destruct (calc o (view e)) as [sm tf] eqn:Ec. simpl.
+    unfold setattr, e; simpl. rewrite Htf. unfold getattr; simpl. rewrite H1, H2.
+    rewrite lookup_update_eq. rewrite lookup_update_neq by discriminate. rewrite ctx_of_sm. auto.
+  - destruct (calc o (view e)) as [sm tf] eqn:Ec. simpl.
+    unfold setattr, e; simpl. rewrite Htf. simpl.
+    assert (Hsm : has "starting_mass" (update "total_fuel_mass" (Some tf) (ctx_of c None)) = true).
+    { rewrite has_update. simpl. unfold has. rewrite ctx_of_sm. reflexivity. }
+    rewrite Hsm. unfold getattr; simpl. rewrite H1, H2.
+    rewrite lookup_update_eq. rewrite lookup_update_neq by discriminate. rewrite lookup_update_eq. auto.
+Qed.
